@@ -281,12 +281,14 @@ class TgtClf(object):
 class Link(object):
     """an Initiator and a Target joined by an Air; helper to run both applications"""
 
-    def __init__(self, brty='106A'):
+    def __init__(self, brty='106A', ini=None, tgt=None):
+        """ini / tgt: protocol objects of an earlier link to be activated again on this (fresh) air"""
         self.air = Air(brty)
         self.iclf = IniClf(self.air)
         self.tclf = TgtClf(self.air)
-        self.ini = nfc.dep.Initiator(self.iclf)
-        self.tgt = nfc.dep.Target(self.tclf)
+        self.ini = nfc.dep.Initiator(self.iclf) if ini is None else ini
+        self.tgt = nfc.dep.Target(self.tclf) if tgt is None else tgt
+        self.ini.clf, self.tgt.clf = self.iclf, self.tclf
         self.air.brty_i = lambda: (self.ini.target.brty if self.ini.target is not None else brty)
         self.thread = None
         self.t_error = None
@@ -341,17 +343,18 @@ TICK = 2.0 ** -10       # the initiator's RWT during conversations: dyadic, so v
                         # the fixed 1 s deadline inside Target.send_timeout_extension (1024 ticks) is never reached
 
 
-def conversation(cfg, payloads, responses, script, rtox=None, release=True, ini_timeout=8, early=None):
+def conversation(cfg, payloads, responses, script, rtox=None, release=True, ini_timeout=8, early=None, ini=None, tgt=None):
     """Activate both sides (fault free), then run a conversation under the fault script.
 
     cfg: dict(brty, did, nad, lri, lrt, brs)    payloads: what the initiator application passes
     to exchange(); responses: what the target application answers to the k-th payload it
     receives; rtox[k] > 0: the target application requests a time-out extension before it
     answers the k-th payload.  ini_timeout is the exchange() time-out in units of RWT.
+    ini / tgt: Initiator / Target objects of an earlier conversation (obs['objs']) that are activated again.
     Returns the observation dict.
     """
-    link = Link(cfg.get('brty', '106A'))
-    obs = {'ini': [], 'tgt': [], 'tgt_rtox': []}
+    link = Link(cfg.get('brty', '106A'), ini=ini, tgt=tgt)
+    obs = {'ini': [], 'tgt': [], 'tgt_rtox': [], 'objs': (link.ini, link.tgt)}
     rtox = rtox or []
 
     def ini_app(link):
